@@ -89,6 +89,15 @@ fn gen(ctx: &GenCtx, i: u64) -> Option<Run> {
     };
     let kyi = rb.key(ky);
     let relabelled = rb.fault(msg_id, FaultKind::Relabel { to: y }, None);
+    // the mirror image: an authentic token of Y whose header text is rewritten to X's is presented to Y
+    // (the body is right for Y, only the header names another protocol)
+    let y_own = if true {
+        let opts = IssueOpts { proto: y, layer: Layer::Core, key: kyi, footer: footer.clone(), assertion: None, now, message: "{\"data\":\"y\"}".into(), json_payload: None, extra_claims: vec![] };
+        let ty = issue(&mut rb, &mut r, opts);
+        Some(rb.fault(ty.msg, FaultKind::Relabel { to: x }, None))
+    } else {
+        None
+    };
     for layer in ALL_LAYERS {
         let spec = VerifierSpec {
             proto: y,
@@ -105,6 +114,9 @@ fn gen(ctx: &GenCtx, i: u64) -> Option<Run> {
         let v = rb.verifier(spec);
         rb.deliver(msg_id, v, at);
         rb.deliver(relabelled, v, at);
+        if let Some(m) = y_own {
+            rb.deliver(m, v, at);
+        }
     }
     Some(rb.finish())
 }
